@@ -686,6 +686,18 @@ impl MemBrokerService {
     }
 }
 
+// Verification hook (H2): run epoch recovery with a caller-supplied largest proxy epoch.
+// The production path `recover_epoch` collects that number from the proxies over TCP.
+#[cfg(feature = "verif")]
+impl MemBrokerService {
+    pub async fn verif_recover_epoch_with(
+        &self,
+        max_proxy_epoch: u64,
+    ) -> Result<(), MetaStoreError> {
+        self.storage.recover_epoch(max_proxy_epoch + 1).await
+    }
+}
+
 type ServiceState = Arc<MemBrokerService>;
 
 fn get_version() -> &'static str {
